@@ -284,11 +284,17 @@ void h_timers(void)
 #ifdef H_WAITPROC
 static void cmv_at_exit(void) { __CPROVER_assert(0, "harness: no process exits in this scenario"); }
 static int cmv_qend;
+static _Bool cmv_q_freed;
 static void cmv_env(void)
 {
     /* the awaited process ends while the caller is suspended: stopped by a third party (real
      * cmb_process_stop run from the dispatcher), or not at all */
-    if (cmv_qend == 1 && cmb_process_status(Q) == CMB_PROCESS_RUNNING) cmb_process_stop(Q, (void *)0x5);
+    if (cmv_qend == 1 && !cmv_q_freed && cmb_process_status(Q) == CMB_PROCESS_RUNNING) {
+        cmb_process_stop(Q, (void *)0x5);
+        /* C10: once it has finished, its owner (e.g. a higher-priority waiter resumed first) may dispose of the
+         * process object before the caller runs again: any later access to it is a use after free */
+        if (nondet_bool()) { cmv_q_freed = 1; free(Q); }
+    }
     if (nondet_bool()) foreign_cause();
 }
 void h_waitproc(void)
@@ -296,6 +302,7 @@ void h_waitproc(void)
     setup();
     cmv_ntimers = 0; cmv_ninterrupts = 0; cmv_nuresumes = 0; cmv_left_suspended = 0;
     foreign_cause();
+    cmv_q_freed = 0;
     cmv_qend = nondet_int(); ASSUME(cmv_qend >= 0 && cmv_qend <= 2);
     if (cmv_qend == 2) { Q->core.status = CMI_COROUTINE_FINISHED; }          /* already finished */
     /* a second waiter on Q, registered before us */
@@ -303,7 +310,7 @@ void h_waitproc(void)
     const int64_t sig = cmb_process_wait_process(Q);
     if (cmv_qend == 2) OBT("C04-O3", sig == CMB_PROCESS_SUCCESS && cmv_nyields == 0, "waiting for a finished process returns SUCCESS at once");
     if (cmv_nyields > 0) {
-        OBT("C04-O3", !in_waiters(Q, P) && count_awaits(P, CMI_PROCESS_AWAITABLE_PROCESS) == 0u,
+        OBT("C04-O3", (cmv_q_freed || !in_waiters(Q, P)) && count_awaits(P, CMI_PROCESS_AWAITABLE_PROCESS) == 0u,
             "after wait_process returns (whatever the signal) the caller is no longer registered with the awaited process, on either side");
         OBT("C04-O3", sig == cmv_p_sig && cmv_p_nresumes == 1, "the return value is the signal of exactly one delivered wake-up");
         OBT("C04-O3", cmb_event_pattern_count(wakeup_event_process, P, CMB_ANY_OBJECT) == 0u, "no process wake-up for the caller is left pending after the call returned");
@@ -316,7 +323,7 @@ void h_waitproc(void)
 void h_waitproc_live(void)
 {
     setup();
-    cmv_left_suspended = 0; cmv_qend = 1;
+    cmv_left_suspended = 0; cmv_qend = 1; cmv_q_freed = 0;
     (void)cmb_process_wait_process(Q);
     OBT("C04-O5", 0, "unreachable marker (never evaluated when the caller is left suspended)");
 }
